@@ -72,6 +72,17 @@ impl<D, E> Reader<D, E> {
     }
 }
 
+impl<D, E> Drop for Reader<D, E> {
+    /// Tells the writer that the receiver is gone and releases anything still queued.
+    fn drop(&mut self) {
+        if let Ok(mut l) = self.shared.lock() {
+            let _state = mem::replace(&mut l.state, SharedState::ReaderFused);
+            let _waker = l.waker.take();
+            drop(l); // dropping the queue might be slow; release the lock first.
+        }
+    }
+}
+
 impl<D, E> futures_core::Stream for Reader<D, E>
 where
     D: From<Vec<u8>>,
@@ -215,9 +226,6 @@ where
     }
 
     fn flush_helper(&mut self, dropping: bool) -> Result<(), ()> {
-        if self.buf.is_empty() && !dropping {
-            return Ok(());
-        }
         let mut l = self.shared.lock().expect("not poisoned");
         let waker = if let SharedState::Ok {
             ready,
@@ -225,6 +233,9 @@ where
             writer_dropped,
         } = &mut l.state
         {
+            if self.buf.is_empty() && !dropping {
+                return Ok(());
+            }
             if !self.buf.is_empty() {
                 let full_buf = mem::take(&mut self.buf);
                 *ready_bytes += full_buf.len();
@@ -232,10 +243,8 @@ where
             }
             *writer_dropped = dropping;
             l.waker.take()
-        } else if !self.buf.is_empty() {
-            return Err(());
         } else {
-            return Ok(());
+            return Err(());
         };
         drop(l);
         if let Some(w) = waker {
